@@ -103,6 +103,8 @@ structure MInv (O : Orders) (log : List Entry) (keys : List Nat) (org start : Na
   startP : ∀ c sp, m.w.persisted.find? (·.1 == c) = some sp → start (2 + c) = sp.2 ∧ 2 + c ∈ keys
   startC : ∀ c d, m.w.persisted.find? (·.1 == c) = none → m.w.cr.find? (·.1 == c) = some d →
     start (2 + c) = d.2 ∧ 2 + c ∈ keys
+  /-- the containers that went through the seq box consist of log entries -/
+  parked : ∀ cont ∈ m.parked, ∀ e ∈ cont, e ∈ log
 
 /-- Facts that only depend on parts of the manager that `seqOp` does not touch. -/
 theorem seqOp_w (O : Orders) (m : Mgr) (k : Nat) (op : SOp) : (m.seqOp O k op).w = m.w := by
@@ -123,6 +125,12 @@ theorem seqOp_internal (O : Orders) (m : Mgr) (k : Nat) (op : SOp) : (m.seqOp O 
   split
   · rfl
   · simp [Mgr.logOp, Mgr.emit, setBox_internal]
+
+theorem seqOp_parked (O : Orders) (m : Mgr) (k : Nat) (op : SOp) : (m.seqOp O k op).parked = m.parked := by
+  unfold Mgr.seqOp
+  split
+  · rfl
+  · simp [Mgr.logOp, Mgr.emit, setBox_parked]
 
 theorem seqOp_getBox_other (O : Orders) (m : Mgr) (k k' : Nat) (op : SOp) (h : k' ≠ k) :
     (m.seqOp O k op).getBox k' = m.getBox k' := by
@@ -145,7 +153,7 @@ theorem minv_seqOp {O log keys org start m} (hO : GoodOrders O) (hS : Scn log ke
     (hw : ∀ b, m.getBox k = some b → wfOp (seqLog log k) (mkOf log) b op = true)
     (hq : k = 1 → ∀ b, m.getBox k = some b → SEv.tooLong ∉ (sstep (cfgOf O log k) b op).2) :
     MInv O log keys org start (m.seqOp O k op) := by
-  refine ⟨coh_seqOp hS.uniq h.coh k (goodCfg_of O hO log k) op hw hq, ?_, ?_, ?_, ?_, ?_, ?_, ?_⟩
+  refine ⟨coh_seqOp hS.uniq h.coh k (goodCfg_of O hO log k) op hw hq, ?_, ?_, ?_, ?_, ?_, ?_, ?_, ?_⟩
   · rw [seqOp_w]; exact h.p0
   · rw [seqOp_w]; exact h.q0
   · intro c hc; rw [seqOp_w]; exact h.c0 c hc
@@ -153,6 +161,7 @@ theorem minv_seqOp {O log keys org start m} (hO : GoodOrders O) (hS : Scn log ke
   · rw [seqOp_internal]; exact h.internal
   · rw [seqOp_w]; exact h.startP
   · rw [seqOp_w]; exact h.startC
+  · rw [seqOp_parked]; exact h.parked
 
 /-! ### Pushes -/
 
@@ -204,7 +213,7 @@ theorem queues_pushChan (m : Mgr) (c : Nat) (it : ChItem) :
 
 theorem minv_pushChan {O log keys org start m} (h : MInv O log keys org start m) (c : Nat) (it : ChItem)
     (hit : ItemOK log c it) : MInv O log keys org start (m.pushChan c it) := by
-  refine ⟨coh_pushChan h.coh c it, h.p0, h.q0, h.c0, ?_, h.internal, h.startP, h.startC⟩
+  refine ⟨coh_pushChan h.coh c it, h.p0, h.q0, h.c0, ?_, h.internal, h.startP, h.startC, h.parked⟩
   intro q hq
   rw [queues_pushChan] at hq
   obtain ⟨q0, hq0, rfl⟩ := List.mem_map.1 hq
@@ -226,7 +235,7 @@ theorem neutral_restore (log : List Entry) (keys : List Nat) (p q : Int) : Neutr
 
 theorem minv_emit_neutral {O log keys org start m} (h : MInv O log keys org start m) (evs : List Event)
     (hn : Neutral log keys evs) : MInv O log keys org start (m.emit evs) :=
-  ⟨coh_emit_neutral h.coh evs hn, h.p0, h.q0, h.c0, h.queues, h.internal, h.startP, h.startC⟩
+  ⟨coh_emit_neutral h.coh evs hn, h.p0, h.q0, h.c0, h.queues, h.internal, h.startP, h.startC, h.parked⟩
 
 theorem kind_seqKey0 (e : Entry) (h : e.kind = .msg ∨ e.kind = .other) : e.seqKey = some 0 := by
   rcases h with h | h <;> simp [Entry.seqKey, h]
@@ -257,7 +266,7 @@ theorem getBox_none_of_not_hasChan (m : Mgr) (c : Nat) (h : m.hasChan c = false)
 theorem minv_addChan {O log keys org start m} (h : MInv O log keys org start m) (c : Nat) (pts : Int)
     (hk : 2 + c ∈ keys) (hb : m.getBox (2 + c) = none) (hs : start (2 + c) = pts) :
     MInv O log keys org start (m.addChan c pts) := by
-  refine ⟨coh_addChan h.coh c pts hk hb hs, h.p0, h.q0, h.c0, ?_, h.internal, h.startP, h.startC⟩
+  refine ⟨coh_addChan h.coh c pts hk hb hs, h.p0, h.q0, h.c0, ?_, h.internal, h.startP, h.startC, h.parked⟩
   intro q hq
   rw [queues_addChan] at hq
   rcases List.mem_append.1 hq with h' | h'
@@ -269,7 +278,7 @@ theorem minv_addChan {O log keys org start m} (h : MInv O log keys org start m) 
 theorem minv_bad {O log keys org start m} (h : MInv O log keys org start m) :
     MInv O log keys org start { m with bad := true } :=
   ⟨⟨h.coh.hlog, h.coh.box, h.coh.tr, h.coh.wf, h.coh.pend, h.coh.nobox⟩, h.p0, h.q0, h.c0, h.queues, h.internal,
-    h.startP, h.startC⟩
+    h.startP, h.startC, h.parked⟩
 
 theorem minv_firstContact {O log keys org start m} (hO : GoodOrders O) (hS : Scn log keys org)
     (h : MInv O log keys org start m) (e : Entry) (he : e ∈ log) (hek : e.seqKey = some (2 + e.chan))
@@ -391,6 +400,81 @@ theorem minv_applyCombined {O log keys org start m} (hO : GoodOrders O) (hS : Sc
     refine ⟨hs e hm, ?_⟩
     have : e.kind = .plain := by simpa using hk
     simp [Entry.seqKey, this]
+
+/-! ### The seq box: whole containers, applied in whatever order the box decides -/
+
+theorem minv_withSeq {O log keys org start m} (h : MInv O log keys org start m) (b : Box) :
+    MInv O log keys org start (m.withSeq b) :=
+  ⟨⟨h.coh.hlog, h.coh.box, h.coh.tr, h.coh.wf, h.coh.pend, h.coh.nobox⟩, h.p0, h.q0, h.c0, h.queues, h.internal,
+    h.startP, h.startC, h.parked⟩
+
+theorem minv_setSeqState {O log keys org start m} (h : MInv O log keys org start m) (v : Int) :
+    MInv O log keys org start (m.setSeqState v) :=
+  ⟨⟨h.coh.hlog, h.coh.box, h.coh.tr, h.coh.wf, h.coh.pend, h.coh.nobox⟩, h.p0, h.q0, h.c0, h.queues, h.internal,
+    h.startP, h.startC, h.parked⟩
+
+theorem minv_setSeqNow {O log keys org start m} (h : MInv O log keys org start m) :
+    MInv O log keys org start m.setSeqNow := minv_setSeqState h _
+
+theorem minv_park {O log keys org start m} (h : MInv O log keys org start m) (cont : List Entry)
+    (hc : ∀ e ∈ cont, e ∈ log) : MInv O log keys org start { m with parked := m.parked ++ [cont] } := by
+  refine ⟨⟨h.coh.hlog, h.coh.box, h.coh.tr, h.coh.wf, h.coh.pend, h.coh.nobox⟩, h.p0, h.q0, h.c0, h.queues, h.internal,
+    h.startP, h.startC, ?_⟩
+  intro c hcm e he
+  have hcm' : c ∈ m.parked ++ [cont] := hcm
+  rcases List.mem_append.1 hcm' with h' | h'
+  · exact h.parked c h' e he
+  · rw [List.mem_singleton.1 h'] at he; exact hc e he
+
+theorem neutral_storeSeq (log : List Entry) (keys : List Nat) (v : Int) : Neutral log keys [.storeSeq v] := by
+  intro k _; simp [projSeq]
+
+theorem parked_getD {O log keys org start m} (h : MInv O log keys org start m) (i : Nat) :
+    ∀ e ∈ m.parked.getD i [], e ∈ log := by
+  intro e he
+  rw [List.getD_eq_getElem?_getD] at he
+  cases hi : m.parked[i]? with
+  | none => rw [hi] at he; simp at he
+  | some c =>
+    rw [hi] at he
+    exact h.parked c (List.mem_of_getElem? hi) e he
+
+theorem minv_applyCombinedSeq {O log keys org start m} (hO : GoodOrders O) (hS : Scn log keys org)
+    (h : MInv O log keys org start m) (cont : List Entry) (hc : ∀ e ∈ cont, e ∈ log) (seq : Int) :
+    MInv O log keys org start (m.applyCombinedSeq O cont seq) := by
+  unfold Mgr.applyCombinedSeq
+  simp only
+  split
+  · exact minv_emit_neutral (minv_setSeqState (minv_applyCombined hO hS h cont hc) _) _ (neutral_storeSeq log keys _)
+  · exact minv_applyCombined hO hS h cont hc
+
+theorem minv_applySeqEvs {O log keys org start} (hO : GoodOrders O) (hS : Scn log keys org) :
+    ∀ (evs : List TdModel.C01.Ev) (m : Mgr), MInv O log keys org start m → MInv O log keys org start (m.applySeqEvs O evs) := by
+  intro evs
+  induction evs with
+  | nil => intro m h; exact h
+  | cons ev rest ih =>
+    intro m h
+    cases ev with
+    | apply ns us ok =>
+      simp only [Mgr.applySeqEvs]
+      apply ih
+      apply minv_emit_neutral _ _ (neutral_storeSeq log keys _)
+      exact foldl_inv (MInv O log keys org start)
+        (fun (m : Mgr) (u : Upd) => m.applyCombinedSeq O (m.parked.getD u.tag []) u.state) us (fun _ => True)
+        (fun b a hb _ => minv_applyCombinedSeq hO hS hb _ (parked_getD hb a.tag) _) m h (fun _ _ => trivial)
+    | setState x =>
+      simp only [Mgr.applySeqEvs]
+      exact ih m h
+
+theorem minv_handleSeq {O log keys org start m} (hO : GoodOrders O) (hS : Scn log keys org)
+    (h : MInv O log keys org start m) (cont : List Entry) (hc : ∀ e ∈ cont, e ∈ log) (a b : Nat) :
+    MInv O log keys org start (m.handleSeq O cont a b) := by
+  unfold Mgr.handleSeq
+  split
+  · exact minv_applyCombined hO hS h cont hc
+  · simp only
+    exact minv_withSeq (minv_applySeqEvs hO hS _ _ (minv_park h cont hc)) _
 
 theorem pushChan_pts (m : Mgr) (c : Nat) (it : ChItem) : (m.pushChan c it).pts = m.pts ∧ (m.pushChan c it).qts = m.qts :=
   ⟨rfl, rfl⟩
